@@ -15,6 +15,22 @@ use std::fmt;
 pub struct Nhr<S>(pub S);
 pub struct NhrV<'a, T: ?Sized>(pub &'a T);
 pub struct NhrC<C>(C);
+/// Sequence / tuple collector that honours the DECLARED length the way a length-prefixed format (MessagePack, CBOR
+/// definite-length arrays, bincode-2 framing) does: such a format writes `len` as the array header and its reader takes
+/// exactly `len` elements, so elements written beyond the declared length are not part of the array a reader sees.
+/// When declared length == elements written (always, for a correct `Serialize`) this is the identity.
+pub struct NhrL<C> {
+    c: C,
+    want: Option<usize>,
+    n: usize,
+}
+impl<C> NhrL<C> {
+    fn beyond_header(&mut self) -> bool {
+        let b = matches!(self.want, Some(w) if self.n >= w);
+        self.n += 1;
+        b
+    }
+}
 
 impl<T: ?Sized + Serialize> Serialize for NhrV<'_, T> {
     fn serialize<S: Serializer>(&self, s: S) -> Result<S::Ok, S::Error> {
@@ -29,9 +45,9 @@ macro_rules! fwd_prim {
 impl<S: Serializer> Serializer for Nhr<S> {
     type Ok = S::Ok;
     type Error = S::Error;
-    type SerializeSeq = NhrC<S::SerializeSeq>;
-    type SerializeTuple = NhrC<S::SerializeTuple>;
-    type SerializeTupleStruct = NhrC<S::SerializeTupleStruct>;
+    type SerializeSeq = NhrL<S::SerializeSeq>;
+    type SerializeTuple = NhrL<S::SerializeTuple>;
+    type SerializeTupleStruct = NhrL<S::SerializeTupleStruct>;
     type SerializeTupleVariant = NhrC<S::SerializeTupleVariant>;
     type SerializeMap = NhrC<S::SerializeMap>;
     type SerializeStruct = NhrC<S::SerializeStruct>;
@@ -63,13 +79,13 @@ impl<S: Serializer> Serializer for Nhr<S> {
         self.0.serialize_newtype_variant(name, idx, variant, &NhrV(v))
     }
     fn serialize_seq(self, len: Option<usize>) -> Result<Self::SerializeSeq, Self::Error> {
-        Ok(NhrC(self.0.serialize_seq(len)?))
+        Ok(NhrL { c: self.0.serialize_seq(len)?, want: len, n: 0 })
     }
     fn serialize_tuple(self, len: usize) -> Result<Self::SerializeTuple, Self::Error> {
-        Ok(NhrC(self.0.serialize_tuple(len)?))
+        Ok(NhrL { c: self.0.serialize_tuple(len)?, want: Some(len), n: 0 })
     }
     fn serialize_tuple_struct(self, name: &'static str, len: usize) -> Result<Self::SerializeTupleStruct, Self::Error> {
-        Ok(NhrC(self.0.serialize_tuple_struct(name, len)?))
+        Ok(NhrL { c: self.0.serialize_tuple_struct(name, len)?, want: Some(len), n: 0 })
     }
     fn serialize_tuple_variant(self, name: &'static str, idx: u32, variant: &'static str, len: usize) -> Result<Self::SerializeTupleVariant, Self::Error> {
         Ok(NhrC(self.0.serialize_tuple_variant(name, idx, variant, len)?))
@@ -88,34 +104,43 @@ impl<S: Serializer> Serializer for Nhr<S> {
     }
 }
 
-impl<C: ser::SerializeSeq> ser::SerializeSeq for NhrC<C> {
+impl<C: ser::SerializeSeq> ser::SerializeSeq for NhrL<C> {
     type Ok = C::Ok;
     type Error = C::Error;
     fn serialize_element<T: ?Sized + Serialize>(&mut self, v: &T) -> Result<(), C::Error> {
-        self.0.serialize_element(&NhrV(v))
+        if self.beyond_header() {
+            return Ok(());
+        }
+        self.c.serialize_element(&NhrV(v))
     }
     fn end(self) -> Result<C::Ok, C::Error> {
-        self.0.end()
+        self.c.end()
     }
 }
-impl<C: ser::SerializeTuple> ser::SerializeTuple for NhrC<C> {
+impl<C: ser::SerializeTuple> ser::SerializeTuple for NhrL<C> {
     type Ok = C::Ok;
     type Error = C::Error;
     fn serialize_element<T: ?Sized + Serialize>(&mut self, v: &T) -> Result<(), C::Error> {
-        self.0.serialize_element(&NhrV(v))
+        if self.beyond_header() {
+            return Ok(());
+        }
+        self.c.serialize_element(&NhrV(v))
     }
     fn end(self) -> Result<C::Ok, C::Error> {
-        self.0.end()
+        self.c.end()
     }
 }
-impl<C: ser::SerializeTupleStruct> ser::SerializeTupleStruct for NhrC<C> {
+impl<C: ser::SerializeTupleStruct> ser::SerializeTupleStruct for NhrL<C> {
     type Ok = C::Ok;
     type Error = C::Error;
     fn serialize_field<T: ?Sized + Serialize>(&mut self, v: &T) -> Result<(), C::Error> {
-        self.0.serialize_field(&NhrV(v))
+        if self.beyond_header() {
+            return Ok(());
+        }
+        self.c.serialize_field(&NhrV(v))
     }
     fn end(self) -> Result<C::Ok, C::Error> {
-        self.0.end()
+        self.c.end()
     }
 }
 impl<C: ser::SerializeTupleVariant> ser::SerializeTupleVariant for NhrC<C> {
